@@ -963,7 +963,20 @@ pub fn make_overlong(d: &Desc, v: &Value, rng: &mut Rng) -> Option<Value> {
             f[last] = nv;
             Some(Value::Var(*i, f))
         }
-        (Desc::Flex { item, .. }, Value::Seq(items)) => {
+        (Desc::Flex { item, len }, Value::Seq(items)) => {
+            if len.max() <= 255 && rng.chance(1, 2) {
+                // a non-last item whose sealed offset would be the `L::MAX` marker or beyond
+                let (slot, al) = (d.flex_slot(), d.align());
+                let target = (len.max_usize() + al * rng.range(0, 1)).saturating_sub(slot);
+                if let Some(big) = value_with_extent(item, target, rng) {
+                    if (slot + ceil_to(extent_of(item, &big), al)) as u128 >= len.max() {
+                        let mut its: Vec<Value> = items.iter().take(1).cloned().collect();
+                        its.push(big);
+                        its.push(smallest_value(item));
+                        return Some(Value::Seq(its));
+                    }
+                }
+            }
             let mut items = items.clone();
             if items.is_empty() {
                 items.push(smallest_value(item));
@@ -971,6 +984,29 @@ pub fn make_overlong(d: &Desc, v: &Value, rng: &mut Rng) -> Option<Value> {
             let last = items.len() - 1;
             items[last] = make_overlong(item, &items[last], rng)?;
             Some(Value::Seq(items))
+        }
+        _ => None,
+    }
+}
+
+/// a value of shape `d` whose extent is as close as possible to `target` bytes (containers only)
+pub fn value_with_extent(d: &Desc, target: usize, rng: &mut Rng) -> Option<Value> {
+    match d {
+        Desc::Vec { elem, len } if elem.size() > 0 => {
+            let k = (target.saturating_sub(d.vec_data_off()) / elem.size()).min(len.max_usize());
+            Some(Value::Seq((0..k).map(|_| gen_value(elem, rng, 4)).collect()))
+        }
+        Desc::Str { len } => {
+            let k = target.saturating_sub(len.size).min(len.max_usize());
+            Some(Value::Str("z".repeat(k)))
+        }
+        Desc::Struct { fields, sized: false, .. } => {
+            let (offs, _, _) = c_struct(fields);
+            let last = fields.len() - 1;
+            let tail = value_with_extent(&fields[last], target.saturating_sub(offs[last]), rng)?;
+            let mut vals: Vec<Value> = fields[..last].iter().map(|f| gen_value(f, rng, 4)).collect();
+            vals.push(tail);
+            Some(Value::Struct(vals))
         }
         _ => None,
     }
